@@ -96,6 +96,22 @@ Proof. reflexivity. Qed.
 Print Assumptions C09_map_ranges.
 Local Close Scope string_scope.
 
+(* package-level variables that hold arbitrary-precision numbers (sdk.Int / Uint / Dec wrap a *big.Int that Unmarshal writes
+   through): a copy of one shares the number with every application instance of the process. The two of the ante
+   decorators are only compared against; the rest are test fixtures. A new one is a way for one chain's state to reach
+   another chain's results in the same process. *)
+Local Open Scope string_scope.
+Definition expected_numeric_globals : list (string * string) :=
+  [("app/ante/commission.go", "MinCommission");
+   ("app/ante/commission.go", "maxVotingPower");
+   ("x/ethbridge/types/test_common.go", "testCethAmount");
+   ("x/ethbridge/types/test_common.go", "TestCoinsAmount");
+   ("x/ethbridge/types/test_common.go", "AltTestCoinsAmountSDKInt")].
+Theorem C09_no_shared_numbers : gen_numeric_globals = expected_numeric_globals.
+Proof. reflexivity. Qed.
+Print Assumptions C09_no_shared_numbers.
+Local Close Scope string_scope.
+
 (* the hypotheses are satisfiable: three recipients, one of them blocked, two orders *)
 Example C09_example :
   let b := mkBank [(1, [(0, 100)])] [(0, 100)] in
